@@ -47,7 +47,7 @@ Proof. apply sqrt_mult. Qed.
 (* positivity from hypotheses *)
 Ltac rd_pos := first [ assumption | lra | (apply Rlt_le; assumption) | (apply Rinv_0_lt_compat; assumption)
                      | (apply Rmult_lt_0_compat; rd_pos) | (apply pow_lt; rd_pos) | (apply sqrt_lt_R0; rd_pos)
-                     | apply exp_pos | (unfold Rpower; apply exp_pos) | apply PI_RGT_0 | nra ].
+                     | apply exp_pos | (unfold Rpower; apply exp_pos) | apply PI_RGT_0 | timeout 5 nra ].
 
 (* push inverses inward (all unconditional in Coq 8.16) and split powers/roots of products of positive factors,
    so that both readings reach the same multiplicative normal form *)
@@ -79,7 +79,7 @@ Ltac rd_nz1 :=
         first [ lra | (replace t with u by (timeout 5 ring); exact E) ]
     | H : 0 < ?t |- ?u <> 0 => apply Rgt_not_eq; first [ lra | (replace u with t by (timeout 5 ring); exact H) ]
     end
-  | vp_nz1
+  | timeout 15 vp_nz1
   | match goal with
     | H : ?t <> 0 |- ?u <> 0 =>
         let E := fresh "rdE" in intro E; apply H;
@@ -184,7 +184,7 @@ Ltac rd_last :=
   [ solve [ vp_abs_sqrt; first [ timeout 20 ring | timeout 30 (field; rd_side) | timeout 20 nsatz ] ]
   | solve [ timeout 20 nra ] ].
 
-Ltac rd_solve :=
+Ltac rd_solve_core :=
   first [ reflexivity
         | solve [ timeout 20 ring ]
         | solve [ rd_norm; first [ reflexivity | solve [ timeout 20 ring ] | solve [ rd_cong_inv; timeout 20 ring ] ] ]
@@ -192,6 +192,9 @@ Ltac rd_solve :=
         | solve [ rd_norm; rd_cong; rd_final ]
         | solve [ rd_cong; rd_final ]
         | rd_last ].
+
+(* the whole portfolio under one budget, so that no generated obligation can stall its shard *)
+Ltac rd_solve := timeout 150 rd_solve_core.
 
 (* ================================================================================================ *)
 (* Part 2.  The parser: fuel never runs out, more fuel never changes the answer                      *)
